@@ -340,6 +340,9 @@ def import_eqsig():
     if root in sys.path:
         sys.path.remove(root)
     sys.path.insert(0, root)
+    have = sys.modules.get("eqsig")
+    if have is not None and os.path.realpath(getattr(have, "__file__", "")).startswith(root + os.sep):
+        return have  # already imported from the right tree (e.g. inherited by a forked worker): keep one set of module objects
     for m in list(sys.modules):
         if m == "eqsig" or m.startswith("eqsig."):
             del sys.modules[m]
